@@ -154,6 +154,12 @@ def cases(tier):
     tup = [('{a = 1}', '{a = 2}', True, True), ('{a = 1}', '{a = "s"}', False, False), ('{a = 1, b = 2}', '{a = 5}', True, False), ('{a = 1}', '{a = 5, b = 6}', False, False),
            ('{a = {b = 1}}', '{a = {b = 2}}', True, True), ('{a = {b = 1}}', '{a = {b = "s"}}', False, False), ('{a = 1}', '[1]', False, False), ('[1, 2]', '[0]', True, True),
            ('[1, "s"]', '[0]', False, False), ('[1, "s"]', '[0, ""]', True, True), ('[1, "s"]', '[]', True, True), ('[]', '[0]', True, True), ('1', '{a = 1}', False, False)]
+    # the offending element / field at every position, not only the last one
+    tup += [('["s", 1]', '[0]', False, False), ('[1, "s", 2]', '[0]', False, False), ('["s", 1, 2]', '[0]', False, False), ('[1, NULL, "b"]', '[0, ""]', False, False),
+            ('{l = ["s", 1]}', '{l = [0]}', False, False), ('[[1], ["s"], [2]]', '[[0]]', False, False),
+            ('{a = 1, b = "x"}', '{a = "str", b = "y"}', False, False), ('{a = "x", b = 1}', '{a = "str", b = "y"}', False, False),
+            ('{a = 1, b = "x"}', '{b = "y"}', True, False), ('{b = "x"}', '{zz = 1, b = "y"}', False, False), ('{b = "x"}', '{b = "y", zz = 1}', False, False),
+            ('{}', '{}', True, True), ('{a = 1, b = 2, c = 3}', '{a = 0, b = 0, c = 0}', True, True), ('{a = 1, b = "s", c = 3}', '{a = 0, b = 0, c = 0}', False, False)]
     for k, (v, s, part, strict) in enumerate(tup):
         add('schema.shaped', 'partial:%s~%s' % (v, s), C, 'schema.shaped{val=%s, shape=%s}' % (v, s), part)
         add('schema.shaped', 'strict:%s~%s' % (v, s), C, 'schema.shaped{val=%s, shape=%s, partial=false}' % (v, s), strict)
